@@ -11,6 +11,9 @@ fn always(_: &[Arg]) -> bool {
 fn no_d1(a: &[Arg]) -> bool {
     a.iter().all(|x| match x { Arg::Dur(..) => x.total() >= -NPC, Arg::I(v) => *v >= -NPC, _ => true })
 }
+fn no_d1_approx(a: &[Arg]) -> bool {
+    a[0].total() >= -NPC + 2 * DAY_NS
+}
 /// floor / ceil / round also read back the floored value: keep it outside the D1 region too
 fn no_d1_snap(a: &[Arg]) -> bool {
     let (t, s) = (a[0].total(), a[a.len() - 1].total());
@@ -160,6 +163,24 @@ pub static OPS: &[Op] = &[
     }},
     Op { name: "add_monotone", sig: &[Ty::Dur, Ty::Dur], pre: |a| { let s = a[0].total() + a[1].total(); s >= MIN_T && s <= MAX_T }, f: |a| {
         (((a[0].dur() + a[1].dur()) > a[0].dur()).to_string(), (a[1].total() > 0).to_string())
+    }},
+    // ---------------------------------------------------------------- C11 decomposition
+    Op { name: "decompose", sig: &[Ty::Dur], pre: always, f: |a| {
+        let t = a[0].total();
+        let (sign, d, h, mi, s, ms, us, ns) = a[0].dur().decompose();
+        let sum = d as i128 * DAY_NS + h as i128 * 3_600_000_000_000 + mi as i128 * 60_000_000_000 + s as i128 * 1_000_000_000 + ms as i128 * 1_000_000 + us as i128 * 1_000 + ns as i128;
+        let ok = h < 24 && mi < 60 && s < 60 && ms < 1000 && us < 1000 && ns < 1000 && sum == t.abs() && ((sign == -1) == (t < 0)) && (-1..=1).contains(&sign);
+        let e = Epoch::from_duration(a[0].dur(), TimeScale::TAI);
+        let acc = (e.hours(), e.minutes(), e.seconds(), e.milliseconds(), e.microseconds(), e.nanoseconds()) == (h, mi, s, ms, us, ns);
+        (if ok && acc { "ok".to_string() } else { format!("({}, {} d {} h {} min {} s {} ms {} us {} ns) for count {} accessors_agree={}", sign, d, h, mi, s, ms, us, ns, t, acc) }, "ok".to_string())
+    }},
+    Op { name: "approx", sig: &[Ty::Dur], pre: no_d1_approx, f: |a| {
+        let t = a[0].total();
+        let m = t.abs();
+        let unit = [DAY_NS, 3_600_000_000_000, 60_000_000_000, 1_000_000_000, 1_000_000, 1_000, 1].into_iter().find(|u| m >= *u).unwrap_or(1);
+        let f = clamp(floor_to(t, unit));
+        let c = clamp(f + unit);
+        (show_d(a[0].dur().approx()), show_total(if t - f < c - t { f } else { c }))
     }},
     // ---------------------------------------------------------------- C14 floor / ceil / round
     Op { name: "floor", sig: &[Ty::Dur, Ty::Dur], pre: no_d1_snap, f: |a| {
@@ -380,6 +401,33 @@ pub static OPS: &[Op] = &[
         let back = Epoch::from_unix_duration(a[0].dur());
         let v = if (got_s - want_s).abs() < 1e-3 { "unix ok".to_string() } else { format!("to_unix_seconds = {} but UTC elapsed - 2208988800 s = {}", got_s, want_s) };
         (format!("{} {} {:?}", v, show_d(back.duration), back.time_scale), format!("unix ok {} UTC", show_total(a[0].total() + k)))
+    }},
+    // ---------------------------------------------------------------- C06 UTC <-> TAI
+    Op { name: "utc_to_tai", sig: &[Ty::Dur], pre: |a| a[0].total().abs() < 1000 * NPC, f: |a| {
+        let u = a[0].total();
+        let e = Epoch::from_duration(a[0].dur(), TimeScale::UTC);
+        let t = e.to_time_scale(TimeScale::TAI);
+        let back = t.to_time_scale(TimeScale::UTC);
+        (format!("{} {:?} back {} {:?}", show_d(t.duration), t.time_scale, show_d(back.duration), back.time_scale),
+         format!("{} TAI back {} UTC", show_total(u + offset_at_utc_ns(u) * 1_000_000_000), show_total(u)))
+    }},
+    Op { name: "tai_to_utc", sig: &[Ty::Dur], pre: |a| a[0].total().abs() < 1000 * NPC, f: |a| {
+        // outside the inserted seconds the UTC count u of TAI instant t is the one with u + offset(u) = t
+        let t = a[0].total();
+        let r = Epoch::from_duration(a[0].dur(), TimeScale::TAI).to_time_scale(TimeScale::UTC);
+        let (c, n) = r.duration.to_parts();
+        let u = c as i128 * NPC + n as i128;
+        let s = 1_000_000_000;
+        let inside_inserted = leap_table().iter().enumerate().any(|(i, (ts, d))| {
+            let prev = if i == 0 { 0 } else { d - 1 };
+            t >= (ts + prev) * s && t < (ts + d) * s
+        });
+        let ok = if inside_inserted {
+            leap_table().iter().any(|(ts, d)| (u - ts * s).abs() <= (if *d == 10 { 10 } else { 1 }) * s)
+        } else {
+            u + offset_at_utc_ns(u) * s == t
+        };
+        (if ok { "ok".to_string() } else { format!("TAI {} -> UTC {} (offset there {} s)", t, u, offset_at_utc_ns(u)) }, "ok".to_string())
     }},
     // ---------------------------------------------------------------- C16 weekdays of epochs
     Op { name: "epoch_weekday", sig: &[Ty::Dur, Ty::UTs], pre: |a| conv_ok(a[0].total(), a[1].ts(), TimeScale::TAI), f: |a| {
